@@ -635,6 +635,19 @@ func (w *world) pairVerify(cn, ctrl, variant string) string {
 	case "startonly":
 		fresh()
 		step(v.m1(nil, w.accLTPK))
+	case "startlow1", "startlow2", "startlow3", "startlow4", "startlow5", "startlow6":
+		// a start whose public key is a point of small order on Curve25519 (the shared secret is all zero whatever the
+		// accessory's key): like startzerokeep, the controller's record of its earlier exchange stays
+		low := map[string]string{
+			"startlow1": "0100000000000000000000000000000000000000000000000000000000000000",
+			"startlow2": "e0eb7a7c3b41b8ae1656e3faf19fc46ada098deb9c32b1fd866205165f49b800",
+			"startlow3": "5f9c95bca3508c24b1d0b1559c83ef5b04445cc4581c8e86d8224eddd09f1157",
+			"startlow4": "ecffffffffffffffffffffffffffffffffffffffffffffffffffffffffffff7f",
+			"startlow5": "edffffffffffffffffffffffffffffffffffffffffffffffffffffffffffff7f",
+			"startlow6": "eeffffffffffffffffffffffffffffffffffffffffffffffffffffffffffff7f",
+		}[variant]
+		tmp := &verifyRun{cc: cc}
+		step(tmp.m1(unhex(low), nil))
 	case "startzerokeep", "badstartkeep":
 		// another start on this connection that does NOT replace the controller's record of the earlier exchange:
 		// a 32-byte all-zero (small-order) key, or a key of the wrong length
